@@ -69,6 +69,9 @@ func TestPropC01(t *testing.T) {
 		for k := range cls {
 			names = append(names, k)
 		}
+		for k := range lang.ShadowClasses(p.Body, p.ArgNames) {
+			names = append(names, k)
+		}
 		nt := reads >= 1 && p.Body.Mentions(p.ArgNames...)
 		evid.R.Case(nt, c.Text+"|"+c.Summary()["args"].(string), func() any { return c.Summary() }, names...)
 	})
